@@ -242,7 +242,8 @@ def run_chunk(pid, idx, cases, workdir, timeout):
 
 def run_cases(pid, cases, tag, timeout):
     """Run all cases (chunked over the cores). Returns dict with impl, model, oracle [(idx,msg)], errors."""
-    workdir = os.path.join(WORK, pid, tag)
+    # one directory per process: two concurrent checks of the same property must not share scratch files
+    workdir = os.path.join(WORK, pid, "%s.%d" % (tag, os.getpid()))
     shutil.rmtree(workdir, ignore_errors=True)
     os.makedirs(workdir)
     cfgp = P.PROPS[pid]
@@ -262,6 +263,7 @@ def run_cases(pid, cases, tag, timeout):
             if e:
                 errors.append(e)
             base += len(ch)
+    shutil.rmtree(workdir, ignore_errors=True)
     return dict(impl=impl, model=model, oracle=oracle, errors=errors)
 
 
